@@ -36,12 +36,14 @@ def table(full):
     # 0.1, 2.7, -0.3: not dyadic — the float32 and the float64 nearest to them differ, and so do their %v texts when a
     # float32 is widened before it is printed
     fl = [0.0, 1.0, -1.0, 1.5, -1.5, 0.5, 2.0, 100.0, 0.25, 10.0, 9.0, 255.0, 127.0, 1e6, 123456.5, 2.0**53, -2.0**53, 3.0e9,
-          0.1, 2.7, -0.3]
+          0.1, 2.7, -0.3, 1e20, 1.5e19, -1e20, 1e300, 1e200, 2.0**63, 2.0**64]
     if not full:
-        fl = [0.0, 1.0, -1.0, 1.5, 0.5, 2.0, 10.0, 2.0**53, 0.1, -0.3]
+        # (whole floats beyond the 64-bit integer range stay floats: no integer path may take them)
+        fl = [0.0, 1.0, -1.0, 1.5, 0.5, 2.0, 10.0, 2.0**53, 0.1, -0.3, 1e20, 1.5e19, 1e300, 2.0**63]
     for x in fl:
         vals.append(({"t": "float64", "v": str(f2bits(x))}, ("flt", Fraction(x))))
-        vals.append(({"t": "float32", "v": str(f32bits(x))}, ("flt", Fraction(struct.unpack("<f", struct.pack("<f", x))[0]))))
+        if abs(x) < 3.0e38:      # (a float32 holds nothing larger)
+            vals.append(({"t": "float32", "v": str(f32bits(x))}, ("flt", Fraction(struct.unpack("<f", struct.pack("<f", x))[0]))))
     strs = ["", "1", "1.5", "10", "9", "a", "ab", "b", "-1", "true", "<nil>", "A", "é", "1e+06", "0.1", "2.7", "-0.3",
             "0.10000000149011612"]
     if not full:
